@@ -65,7 +65,9 @@ FIELDS = ['count', 'name', 'person', 'person.name', 'person.age + 1', 'person.ta
           'count * 2', 'str(count) + name', 'sorted(data)', 'max(data)', 'None', 'True', '3.5', 'count > 1',
           # freshly computed numbers and strings: temporaries that exist only while the field is evaluated
           'count * 1.5', 'count / 3', 'person.age / 7', 'len(data) * 0.25', 'count * 1000 + 7', 'name * 3',
-          'person.age * 12345']
+          'person.age * 12345',
+          # empty containers, stored and freshly made
+          'data * 0', 'list()', 'dict()', 'tuple(data)', 'set()', 'sorted(data) * 0', 'dict(person.tags)']
 FAILING = ['nope_zz', 'person.missing', 'data[99]', '1/0', 'person.tags["zz"]', 'int(name)', 'weird.attr', 'count.x']
 LITERALS = ['', ' ', 'value=', 'hit ', ' -> ', 'ünï ✓ ', '100% ', '$x ', "it's ", '"q" ', 'a/b\\c ', 'tab\t', '[', ']',
             '(deep) ', 'x = ', ' , ', '#', '%s %d ']
@@ -178,13 +180,15 @@ def case_log(seed, out, spec, wd):
         plist = [PythonPlugin(config=None)]
     else:
         # a logger object may well be falsy (e.g. it implements __len__ and is empty): it is still the logger
-        plist = [plugins.make('RecLogger', ['log'], falsy=r.pick([None, None, None, 'len', 'bool']))()]
+        # (and it may name its parameters as it likes: the three values are given by position)
+        plist = [plugins.make('RecLogger', [r.pick(['log', 'log', 'logp'])],
+                              falsy=r.pick([None, None, None, 'len', 'bool']))()]
     rig = Rig(custom={}, host_dir=wd, plugins=plist)
     rig.install(trigs)
     nhits = r.randrange(1, 5)
     inputs = []
     for _ in range(nhits):
-        data = [r.randrange(9) for _ in range(r.randrange(1, 5))]
+        data = [r.randrange(9) for _ in range(r.randrange(0 if r.chance(0.3) else 1, 5))]
         if collect and r.chance(0.15):
             # a frame far larger than the snapshot's variable limit: the message must still render every field
             data = [[[i * 100 + j * 10 + k for k in range(10)] for j in range(10)] for i in range(11)]
